@@ -3,7 +3,7 @@
    Model: Model/C31_DeleteSeg.v (onRecordingDeleteSegment after fix 555d196, listing = Path.Decode,
    recorder = Path.Encode, all over the same substituted path format g) on top of Model/C26_RecPath.v. *)
 From Coq Require Import List ZArith.
-Require Import MTX.Lib.Civil MTX.Model.C26_RecPath MTX.Proofs.C26_RecPath
+Require Import MTX.Lib.Civil MTX.Model.C26_RecPath MTX.Proofs.C26_RecPath MTX.Model.C26_Zone MTX.Proofs.C26_Zone
                MTX.Model.C31_DeleteSeg MTX.Proofs.C31_DeleteSeg.
 Import ListNotations.
 Local Open Scope Z_scope.
@@ -31,9 +31,9 @@ Print Assumptions C31_rfc3339_fields_denote.
    (to the microsecond with %f, to the second otherwise), and that start, fed back to delete with any offset,
    names exactly that file. For every zone function, every substituted format in which every '%' starts a
    placeholder and which identifies the instant (%s or the six calendar fields), every instant the
-   fixed-width fields can hold; when the format has neither %z nor %s the offset `loff` that time.Date
-   applies must be the one in force at the recording (always true in a fixed-offset zone; false in a DST
-   zone only for the hour repeated at the end of DST). *)
+   fixed-width fields can hold; without %z the offset `loff` of the (fixed-offset) local zone that Decode
+   uses must be the one in force at the recording. For zones with changing offsets see
+   C31_agrees_with_listing_local / _zone / C31_agrees_on_file_zone below. *)
 Theorem C31_agrees_with_listing : forall zone loff g u0 n0,
   let ts := tokenize g in
   let t0 := mkI u0 n0 (zone u0) in
@@ -43,6 +43,61 @@ Theorem C31_agrees_with_listing : forall zone loff g u0 n0,
               /\ forall off, delete_target zone g (mkI u n off) = recorded_name zone g u0 n0.
 Proof. exact agrees_with_listing. Qed.
 Print Assumptions C31_agrees_with_listing.
+
+(* The same for ANY server zone, given as C26's `lzone` L (offset time.Date subtracts for a reading /
+   offset in force at an instant; the recorder and delete use lz_at L): *)
+Theorem C31_agrees_with_listing_local : forall L g u0 n0,
+  let ts := tokenize g in
+  let t0 := mkI u0 n0 (lz_at L u0) in
+  no_stray ts = true -> no_path ts = true -> identifies ts = true -> encodable_lz L ts t0 = true ->
+  exists u n, listed_start_lz L g (recorded_name (lz_at L) g u0 n0) = Some (u, n)
+              /\ (u, n) = trunc_start ts t0
+              /\ forall off, delete_target (lz_at L) g (mkI u n off) = recorded_name (lz_at L) g u0 n0.
+Proof. exact agrees_with_listing_lz. Qed.
+Print Assumptions C31_agrees_with_listing_local.
+
+(* In a zone-database zone (a table of offset changes with offsets within B of UTC and changes more than
+   2B apart, Model/C26_Zone.v; DST zones included) the hypothesis on time.Date is discharged: for every
+   recording outside the repeated hours - whatever the format, no %z / %s needed - the listing reports the
+   recorded start and that start, written with any offset, deletes exactly that file ... *)
+Theorem C31_agrees_with_listing_zone : forall B z, zone_ok B z = true -> forall g u0 n0,
+  let ts := tokenize g in
+  let t0 := local_instant z u0 n0 in
+  no_stray ts = true -> no_path ts = true -> identifies ts = true -> enc_ranges ts t0 = true ->
+  in_repeat (lookup z) u0 = false ->
+  exists u n, listed_start_lz (lz_of_zone z) g (recorded_name (offset_at z) g u0 n0) = Some (u, n)
+              /\ (u, n) = trunc_start ts t0
+              /\ forall off, delete_target (offset_at z) g (mkI u n off) = recorded_name (offset_at z) g u0 n0.
+Proof. exact agrees_with_listing_zone. Qed.
+Print Assumptions C31_agrees_with_listing_zone.
+
+(* ... and for EVERY recording, repeated hours included, listing and deletion agree on the file: the
+   listed start shows the wall-clock reading of the recording (it is the recorded instant or the instant one
+   clock change away, see C26_zone_date_pick_first and _second), and written with any offset it deletes exactly that file. *)
+Theorem C31_agrees_on_file_zone : forall B z, zone_ok B z = true -> forall g u0 n0,
+  let ts := tokenize g in
+  let t0 := local_instant z u0 n0 in
+  no_stray ts = true -> no_path ts = true -> identifies ts = true -> enc_ranges ts t0 = true ->
+  exists u n, listed_start_lz (lz_of_zone z) g (recorded_name (offset_at z) g u0 n0) = Some (u, n)
+              /\ u + offset_at z u = u0 + offset_at z u0 /\ n = snd (trunc_start ts t0)
+              /\ forall off, delete_target (offset_at z) g (mkI u n off) = recorded_name (offset_at z) g u0 n0.
+Proof. exact agrees_on_file_zone. Qed.
+Print Assumptions C31_agrees_on_file_zone.
+
+(* inside a repeated hour the listed INSTANT can be the other one (restriction named: the agreement on the
+   instant needs in_repeat = false; inherent in a name without %z / %s): Europe/Rome 2024, the segment
+   recorded at 2024-10-27T00:30:00Z (02:30 CEST) is listed at 01:30:00Z (02:30 CET); deleting by either
+   instant removes that file *)
+Definition rome2024 : zone := mkZone 3600 [(1711846800, 7200); (1729990800, 3600)].
+Theorem C31_listed_instant_repeated_hour_refuted :
+  let g := [47;114;101;99;47; 99;97;109; 47; 37;89;45;37;109;45;37;100;95;37;72;45;37;77;45;37;83;45;37;102; 46;109;112;52] in
+  let v := recorded_name (offset_at rome2024) g 1729989000 0 in
+  zone_ok 57600 rome2024 = true /\ in_repeat (lookup rome2024) 1729989000 = true /\
+  listed_start_lz (lz_of_zone rome2024) g v = Some (1729992600, 0) /\
+  delete_target (offset_at rome2024) g (mkI 1729992600 0 0) = v /\
+  delete_target (offset_at rome2024) g (mkI 1729989000 0 7200) = v.
+Proof. vm_compute. repeat split. Qed.
+Print Assumptions C31_listed_instant_repeated_hour_refuted.
 
 (* "exactly the segment whose start equals the given instant": a request can only name the file of a
    segment whose start equals its instant at the format's precision *)
@@ -54,6 +109,17 @@ Theorem C31_only_that_instant : forall zone loff g req u0 n0,
   trunc_start ts (to_local zone req) = trunc_start ts (mkI u0 n0 (zone u0)).
 Proof. exact target_only_that_instant. Qed.
 Print Assumptions C31_only_that_instant.
+
+(* the same in a zone-database zone, both instants outside the repeated hours *)
+Theorem C31_only_that_instant_zone : forall B z, zone_ok B z = true -> forall g req u0 n0,
+  let ts := tokenize g in
+  no_stray ts = true -> no_path ts = true -> identifies ts = true ->
+  enc_ranges ts (to_local (offset_at z) req) = true -> enc_ranges ts (local_instant z u0 n0) = true ->
+  in_repeat (lookup z) (i_unix req) = false -> in_repeat (lookup z) u0 = false ->
+  delete_target (offset_at z) g req = recorded_name (offset_at z) g u0 n0 ->
+  trunc_start ts (to_local (offset_at z) req) = trunc_start ts (local_instant z u0 n0).
+Proof. exact only_that_instant_zone. Qed.
+Print Assumptions C31_only_that_instant_zone.
 
 (* the substituted format is what C26 speaks about: recorder, listing and delete, which substitute the
    name first and encode with an empty Path, produce Path{name, t}.Encode(recordPath ++ extension) *)
